@@ -81,6 +81,13 @@ MUTANTS = [
     ("c04_selectwhere_uses_max", ["C04", "C14"], "bt/algos.py", "            sig = signal.loc[target.now]\n", "            sig = signal.loc[target.now:].iloc[:2].any()\n"),
     ("c04_sec_price_next", ["C04", "C01"], "bt/core.py", "                self._price = self._prices.values[inow]\n", "                self._price = self._prices.values[min(inow + 1, len(self._prices) - 1)] if inow > 3 else self._prices.values[inow]\n"),
     ("c04_spread_from_last_row", ["C04", "C07"], "bt/core.py", "                self._bidoffer = self._bidoffers.values[inow]\n", "                self._bidoffer = self._bidoffers.values[-1]\n"),
+    ("c04_targetvol_unsliced_window", ["C04"], "bt/algos.py", "        t0 = target.now - self.lag\n        prc = target.universe.loc[t0 - self.lookback : t0, selected]\n        returns = bt.ffn.to_returns(prc)", "        t0 = target.now - self.lag\n        prc = target._universe.loc[t0 - self.lookback : t0 + pd.DateOffset(days=2), selected]\n        returns = bt.ffn.to_returns(prc)"),
+    ("c04_pte_unsliced_window", ["C04"], "bt/algos.py", "        prc = target.universe.loc[t0 - self.lookback : t0, cols]", "        prc = target._universe.loc[t0 - self.lookback : t0 + pd.DateOffset(days=2), cols]"),
+    ("c04_pte_next_target_row", ["C04"], "bt/algos.py", "        target_weights = self.target_weights.loc[target.now, :]", "        target_weights = self.target_weights.loc[target.now :, :].iloc[:2].iloc[-1]"),
+    ("c04_coupon_next_row", ["C04", "C17"], "bt/core.py", "        coupon = self._coupons.values[inow]", "        coupon = self._coupons.values[min(inow + 1, len(self._coupons) - 1)] if inow > 2 else self._coupons.values[inow]"),
+    ("c04_cost_short_last_row", ["C04", "C17"], "bt/core.py", "            cost = self._cost_short.values[inow]", "            cost = self._cost_short.values[-1]"),
+    ("c04_unit_risk_next_row", ["C04", "C20"], "bt/algos.py", "        unit_risk = unit_risks.values[index]", "        unit_risk = unit_risks.values[min(index + 1, len(unit_risks) - 1)]"),
+    ("c04_notional_peeks", ["C04", "C17"], "bt/algos.py", "            target.temp[\"notional_value\"] = notional_value.loc[target.now]", "            target.temp[\"notional_value\"] = notional_value.loc[target.now :].dropna().iloc[0] if len(notional_value.loc[target.now :].dropna()) else notional_value.loc[target.now]"),
     ("c04_momentum_peeks_one_day", ["C04"], "bt/algos.py", "        prc = target.universe.loc[t0 - self.lookback : t0, selected]\n        target.temp[\"stat\"] = prc.calc_total_return()", "        prc = target._universe.loc[t0 - self.lookback : t0 + pd.DateOffset(days=1), selected]\n        target.temp[\"stat\"] = prc.calc_total_return()"),
     # ---- C09
     ("c09_paper_amount", ["C09"], "bt/core.py", "            self._paper_amount = 1000000\n", "            self._paper_amount = 100000\n"),
